@@ -326,6 +326,12 @@ def scripted_schedule(sd, net, t):
         plain = {i: [float(evse_max(s["evse"]) if evse_max(s["evse"]) != float("inf") else 64.0)]
                  for i, s in stations.items()}
         return {k: list(v) for k, v in plain.items()}, plain
+    if sd.get("mode") == "allrand":
+        # every station, fixed length, fresh random valid pilots each period (same keys and row length every time)
+        L = sd.get("max_len", 1)
+        plain = {i: [float(valid_pilot(stations[i]["evse"], random.Random(f"{sd['seed']}:{rel}:{i}:{j}"))) for j in range(L)]
+                 for i in sorted(stations)}
+        return plain, plain
     if r0.random() < sd.get("p_empty", 0.15):
         return {}, {}
     L = r0.randint(1, sd.get("max_len", 3))
